@@ -135,13 +135,15 @@ _bls("C01", ["Props.C01", "Props.C01Model"],
      "publicKeyOf sk (model_public_key_is_abstract_key) - accepts a string iff it is Bls.signPoint sk H, the bytes the model's Sign produces and the run compares with the implementation (model_sign_is_abstract_sign). "
      "Such bilinear maps exist on these groups (example in the file), so the statement is not vacuous; that BLST's optimal ate pairing is one of them is not proven.",
      "Lean kernel + correspondence; the pairing is a parameter of the theorems (its existence on the model's groups is shown, BLST's pairing being one is assumed); see trusted base")
-_bls("C02", ["Props.C02"],
+_bls("C02", ["Props.C02", "Props.BlsOnModel"],
      "random shapes n<=12 (thorough n<=40): all-distinct, all-equal, few-messages/many-keys, few-keys/many-messages, ties, duplicated pairs, pk and -pk on one message, equal points held in decoded / "
      "removal-result objects, two hashers; candidates: honest aggregate, permuted triples, share missing/doubled, +torsion, bit flip, wrong length, identity key inside with aggregate of the others; "
      "OneMessage vs Verify under the summed key; typed errors in documented order; the C path selected by each shape is recorded (coverage.paths)",
      "Lean 4 proof (pairing-product spec for every grouping/order/back end) + differential run vs scalar-level equation",
      "Theorem verifyMany_spec/iff_sum: for every list, every grouping (map order, duplicate representations) and either back end the verdict is 'no identity key and sig = encode(sum sk_i*H_i)'; "
-     "permutation/grouping independence, cancellation, multiplicity, OneMessage = Verify under the sum = ManyMessages on the replicated message.",
+     "permutation/grouping independence, cancellation, multiplicity, OneMessage = Verify under the sum = ManyMessages on the replicated message. "
+     "Props.BlsOnModel.model_verifyMany_iff: the same on the groups of the executable model (Proofs/BlsConcrete: E1, r-torsion G1/G2, the model's codec; only the pairing is a parameter): for every bilinear map non-degenerate at g2, "
+     "every list of (sk_i, m_i), grouping and back end, the verdict is 'no zero key and sig = writeE1 (Curve.sum [sk_i * H(m_i)])' - the model's own aggregate of the individual signatures (encode_sum).",
      "Lean kernel + correspondence; the comparator choosing the back end and Go map order are parameters of the theorem")
 _bls("C03", ["Props.C03"],
      "n<=5 (thorough n<=7): every subset of invalid positions x kinds {bit flip, swapped pairs, s_i+d/s_j-d, three-way cancellation, non-G1, wrong length, bad header, identity key, identity signature}; "
@@ -161,18 +163,21 @@ _bls("C04", ["Props.C04", "Props.C04Model", "Props.E2Model"],
      "model_sign_aggregated_key (for a hash point the membership test accepts, ((k1+k2) mod r) * H = k1*H + k2*H as values of the model): the aggregation laws hold for every input of the model that is compared with the code, not only on the cases of a run.",
      "Lean kernel + correspondence; E1 and E2 are bridged to Mathlib's group law (E2 over QuadraticAlgebra (ZMod p) (-1) 0 = F_p[u]/(u^2+1), a field since p = 3 mod 4: Proofs/CurveGroup2, CurveInst2; "
      "Props.E2Model: aggregation of public keys in the model is the group sum, order independent, and publicKeyOf((k1+k2) mod r) = sum [publicKeyOf k1, publicKeyOf k2])")
-_bls("C16", ["Props.C16"],
+_bls("C16", ["Props.C16", "Props.BlsOnModel"],
      "keys as in C01 x PoP generation vs model, honest verification, other key, candidate catalogue, signatures of the public-key bytes under 9 tags (empty, prefix/suffix-overlapping with the PoP suite, 1 KiB) "
      "submitted as PoP, PoP submitted to Verify under each tag, identity keys, non-BLS keys",
      "Lean 4 proof (instance of the acceptance theorem; string lemma for every tag; separation under an explicit collision-freeness hypothesis) + differential run",
      "Theorems: pop_iff, pop_identity_false, pop_other_key; suite_keys_distinct for EVERY tag, re-proved against the strings extracted from the code; pop_sig_separation conditional on an explicit "
-     "hypothesis that the keyed hash-to-curve has no collisions across distinct keys (partial: no executable model can discharge it).",
+     "hypothesis that the keyed hash-to-curve has no collisions across distinct keys (partial: no executable model can discharge it). "
+     "Props.BlsOnModel.model_pop_iff: on the groups of the executable model, for every pairing: a PoP verifies under sk*g2 iff it is Bls.signPoint sk (H (writeE2 (publicKeyOf sk))) - the key encoder being the model's (encodePk_smul_g2, injective on G2).",
      "Lean kernel + correspondence; random-oracle-style hypothesis explicit")
-_bls("C17", ["Props.C17"],
+_bls("C17", ["Props.C17", "Props.BlsOnModel"],
      "key pairs (distinct, equal, negated) x data: honest, swapped pairs, crossed proofs, other data, other key, scaled by a common factor, +torsion on either/both proofs, identity proofs, malformed, wrong length, "
      "identity keys (4 constructions) in either/both positions, VerifyAgainstData vs Verify, non-BLS keys; expected verdict: sk2*P1 == sk1*P2 with both in G1",
      "Lean 4 proof (exact characterisation of SPOCKVerify) + differential run",
-     "Theorems: spock_iff (true iff both proofs canonical G1 encodings, no identity key, e(p1,pk2)=e(p2,pk1)), symmetry, honest proofs verify, other data rejected, common scaling, rejection catalogue, agreement with Verify.",
+     "Theorems: spock_iff (true iff both proofs canonical G1 encodings, no identity key, e(p1,pk2)=e(p2,pk1)), symmetry, honest proofs verify, other data rejected, common scaling, rejection catalogue, agreement with Verify. "
+     "Props.BlsOnModel: on the groups of the executable model, for every pairing: model_spock_honest (signPoint sk1 H and signPoint sk2 H verify), model_spock_other_data (different hash points: rejected), "
+     "model_spock_vs_verify (against an honest proof, p2 verifies iff p2 = signPoint sk2 H).",
      "Lean kernel + correspondence")
 
 CONFIG["C12"] = dict(
